@@ -37,6 +37,7 @@ typedef struct {
     uint32_t spd[256];
     int levels;
     int omission;                /* some level-0 block of the final file is omitted (index entry 0) */
+    uint8_t sig_omission[256];   /* ... per signal */
     image_t *img; size_t nimg;
     char feat[200];
 } plan_t;
@@ -141,7 +142,7 @@ static int run_and_plan(plan_t *pl, rng_t *r, const char *path, const ctx_t *c) 
                     const jd_chunk_t *icn = &d.ch[il->idx[q]];
                     if (icn->plen < 16) continue;
                     uint32_t cnt; memcpy(&cnt, icn->payload + 8, 4);
-                    for (uint32_t e = 0; e < cnt && 16 + 8 * (uint64_t) (e + 1) <= icn->plen; ++e) { uint64_t off; memcpy(&off, icn->payload + 16 + 8 * e, 8); if (!off) pl->omission = 1; }
+                    for (uint32_t e = 0; e < cnt && 16 + 8 * (uint64_t) (e + 1) <= icn->plen; ++e) { uint64_t off; memcpy(&off, icn->payload + 16 + 8 * e, 8); if (!off) { pl->omission = 1; pl->sig_omission[s & 255] = 1; } }
                 }
             }
             const jd_list_t *dl = &d.sig[s].data[JD_TT_FSR];
@@ -276,6 +277,9 @@ static void image_case(uint64_t ii, void *vctx) {
                 v_violation("C03", key, wj, "signal %d was defined on disk before the stop but is not returned after reopen", s);
             } else if (lengths[s] < need) {
                 snprintf(key, sizeof(key), "clause2|lost-more-than-allowed|levels=%s|%s", pl->levels >= 2 ? ">=2" : "<2", lengths[s] < 0 ? "length-error" : "short");
+                /* a signal with omitted blocks: blocks omitted after the last flushed level-1 index leave no trace on disk,
+                 * the recovered signal has to end before them (known finding) */
+                if (pl->sig_omission[s] && lengths[s] >= 0) snprintf(key, sizeof(key), "clause2|lost-more-than-allowed|omitted-blocks");
                 v_violation("C03", key, wj, "signal %d: %zu data blocks had been started, reopen yields %lld samples (at least %lld expected: all but the block in flight)", s, started,
                             (long long) lengths[s], (long long) need);
             }
